@@ -71,6 +71,21 @@ def _run(case):
         reserved = set(_builtin()) | set(user)
         an = SensitiveWordAnonymizer(list(words), salt, reserved)
         return [an.anonymize(l) for l in lines]
+    if via == "file":
+        import os
+        import shutil
+        import tempfile
+
+        from netconan.anonymize_files import anonymize_files
+
+        d = tempfile.mkdtemp(prefix="vf-c10-")
+        try:
+            with open(os.path.join(d, "in.cfg"), "w", encoding="utf-8", newline="") as fh:
+                fh.write("".join(l + "\n" for l in lines))
+            anonymize_files(os.path.join(d, "in.cfg"), os.path.join(d, "out.cfg"), False, False, salt=salt, sensitive_words=list(words), reserved_words=list(user) if user else None)
+            return open(os.path.join(d, "out.cfg"), "rb").read().decode("utf-8", "replace").split("\n")[:-1]
+        finally:
+            shutil.rmtree(d, ignore_errors=True)
     from netconan.anonymize_files import FileAnonymizer
 
     fa = FileAnonymizer(anon_pwd=bool(case.get("pwd")), anon_ip=False, salt=salt, sensitive_words=list(words), reserved_words=list(user) if user else None)
@@ -233,7 +248,7 @@ REPLAY = {"words": check_words, "secrets": check_secret_reserved, "hashseeds": c
 
 _edge = st.sampled_from("ghijklmnopqrstuvwxyzGHIJKLMNOPQRSTUVWXYZ")
 _inner = st.text(alphabet="abcxyzABQ019-_", max_size=5).filter(lambda s: not _HEX6.search(s))
-_word = st.one_of(st.builds(lambda a, m, b: a + m + b, _edge, _inner, _edge), st.sampled_from(["sea", "Seattle", "sear", "intranet", "net", "zorg", "mgmt", "Kwyjibo", "lab-x", "s_t"]))
+_word = st.one_of(st.builds(lambda a, m, b: a + m + b, _edge, _inner, _edge), st.sampled_from(["sea", "Seattle", "sear", "intranet", "net", "zorg", "mgmt", "Kwyjibo", "lab-x", "s_t", "m\u00fcller", "Z\u00fcrich", "\u0142\u00f3d\u017a", "stra\u00dfe"]))
 
 
 @st.composite
@@ -284,7 +299,7 @@ def _case(draw):
                 toks.append(wc)
         lead = draw(st.sampled_from(["", " ", "   "]))
         lines.append(lead + "".join(t + draw(_ws) for t in toks).rstrip(" \t") + draw(st.sampled_from(["", "", " "])))
-    via = draw(st.sampled_from(["direct", "direct", "io"]))
+    via = draw(st.sampled_from(["direct", "direct", "io", "file"]))
     pwd = False
     if via == "io" and draw(st.integers(0, 2)) == 0:
         # -p and -w together: listed words in front of (or behind) recognised secret forms
